@@ -519,6 +519,8 @@ func parseContent(contentMap map[string]any) (Content, error) {
 		return parseTextContent(contentMap)
 	case "image":
 		return parseImageContent(contentMap)
+	case ContentTypeAudio:
+		return parseAudioContent(contentMap)
 	case ContentTypeEmbeddedResource, "embedded_resource": // "embedded_resource": what earlier versions of this library sent
 		return parseResourceContent(contentMap)
 	default:
@@ -543,6 +545,16 @@ func parseImageContent(contentMap map[string]any) (Content, error) {
 		return nil, fmt.Errorf("image data or mimeType is missing")
 	}
 	return NewImageContent(data, mimeType), nil
+}
+
+// parseAudioContent parses audio content
+func parseAudioContent(contentMap map[string]any) (Content, error) {
+	data, okData := contentMap["data"].(string)
+	mimeType, okMime := contentMap["mimeType"].(string)
+	if !okData || !okMime {
+		return nil, fmt.Errorf("audio data or mimeType is missing")
+	}
+	return NewAudioContent(data, mimeType), nil
 }
 
 // parseResourceContent parses resource content
